@@ -60,7 +60,10 @@ pub fn h_any() {
 pub fn h_skeletons() {
     let l = |t: &str| sym::any_str(t, "set:abc", 0, 1);
     let (x, y, z, w, s) = (l("x"), l("y"), l("z"), l("w"), sym::any_str("s", "set:-1a", 0, 2));
-    let p = match sym::choose("skel", 6) {
+    let p = match sym::choose("skel", 8) {
+        // three levels: a comma / closing brace of the middle group right after the innermost group
+        6 => format!("{{{},{}{{{}{{a,b}},c}}{}}}", x, y, z, s),
+        7 => format!("{{{}{{{}{{{}}}a}}b,c}}{}", x, y, z, s),
         0 => format!("{{{}{{{},{}}},{}}}{}", x, y, z, w, s),
         1 => format!("{}{{,{}}}{}", x, y, s),
         2 => format!("{{{},{}}}{{{},{}}}{}", x, y, z, w, s),
